@@ -283,6 +283,91 @@ fn random_impl(ctx: &Ctx, with_kmers: bool, n: u64) -> Stats {
     })
 }
 
+/// "every sequence, window size w and minimiser size m with 1 <= m <= w": windows far beyond the usual m+60 —
+/// (a) real windows of tens of thousands of bases on long records (as many m-mers per window as a 16-bit or
+/// 65536-entry structure can hold, and a few more), judged against the O(n) reference; (b) windows longer than
+/// the record, up to absurd values: nothing may be emitted, and nothing proportional to w may be needed.
+pub fn widewindow(ctx: &Ctx) -> Stats {
+    let mut st = Stats::new();
+    let mut rng = Rng::keyed(ctx.seed, "c09.widewindow", 0);
+    // (a)
+    let reps = ctx.pick(6usize, 40usize);
+    for rep in 0..reps {
+        if ctx.expired() {
+            st.truncated = true;
+            return st;
+        }
+        let m = *rng.pick(&[1usize, 4, 7, 10, 15, 28]);
+        let span = match rep % 6 {
+            0 => 65_535usize,
+            1 => 65_536,
+            2 => 65_537,
+            3 => 70_000,
+            4 => rng.usize(255, 258),
+            _ => rng.usize(1000, 90_000),
+        };
+        let w = span + m - 1;
+        let len = w + match rep % 4 {
+            0 => 0,
+            1 => 1,
+            2 => rng.usize(2, 2000),
+            _ => rng.usize(2000, 70_000),
+        };
+        let class = *rng.pick(&[SeqClass::Uniform, SeqClass::Uniform, SeqClass::TwoLetter, SeqClass::Period3, SeqClass::IsolatedN]);
+        let mut seq = gen_seq(&mut rng, class, len, false);
+        if class == SeqClass::IsolatedN {
+            // keep at least one clean window
+            for b in seq.iter_mut().take(w) {
+                if !matches!(*b, b'A' | b'C' | b'G' | b'T' | b'a' | b'c' | b'g' | b't' | b'U' | b'u') {
+                    *b = b'C';
+                }
+            }
+        }
+        let case = Json::obj().set("w", Json::u(w)).set("m", Json::u(m)).set("len", Json::u(len)).set("class", Json::s(class.name())).set("seq_hash", Json::Int(hash_bytes(&seq) as i128));
+        note_current_case(ctx, &case);
+        st.case(true, hash_bytes(&seq) ^ mix((w * 64 + m) as u64));
+        st.class(&format!("m-mers per window {}", if span >= 65_535 && span <= 65_537 { span.to_string() } else if span > 65_537 { ">65537".into() } else { "<65535".into() }));
+        let exp = model::minimiser_runs_fast(&seq, w, m);
+        // (the k-mer-reporting iterator packs a w-mer into 64 bits: w <= 31 only, not exercised here)
+        let got = guarded(|| MinimiserGenerator::new(&seq, w, m).collect::<Vec<(u64, usize, usize)>>());
+        match got {
+            Err(p) => st.violate(&panic_sig(&p), format!("iterator panicked on a {}-base window: {}", w, p), case),
+            Ok(a) => {
+                if a != exp {
+                    let first = a.iter().zip(exp.iter()).position(|(x, y)| x != y).unwrap_or(a.len().min(exp.len()));
+                    st.violate(
+                        "minimiser.widewindow.runs",
+                        format!("w={} m={} len={}: iterator yields {} runs, reference {}; first difference at run {} ({:?} vs {:?})", w, m, len, a.len(), exp.len(), first, a.get(first), exp.get(first)),
+                        case,
+                    );
+                } else if rep % 5 == 0 {
+                    st.sample(case.set("runs", Json::u(exp.len())));
+                }
+            }
+        }
+    }
+    // (b)
+    for (i, &w) in [1usize << 20, 1_000_000_000, 10_000_000_000, 10_000_000_000_000, 1 << 62, usize::MAX / 2].iter().enumerate() {
+        for m in [1usize, 10, 31] {
+            let len = *rng.pick(&[0usize, 1, 30, 500, 5000]);
+            let (class, seq) = gen_seq_any(&mut rng, len, false);
+            let case = Json::obj().set("w", Json::Int(w as i128)).set("m", Json::u(m)).set("seq", Json::bytes(&seq)).set("class", Json::s(class.name()));
+            note_current_case(ctx, &case);
+            st.case(true, hash_bytes(&seq) ^ mix(w as u64 ^ m as u64) ^ i as u64);
+            st.class("window longer than the sequence");
+            match guarded(|| MinimiserGenerator::new(&seq, w, m).collect::<Vec<_>>()) {
+                Err(p) => st.violate(&format!("minimiser.hugew:{}", panic_sig(&p)), format!("w={} on a {}-byte sequence panicked: {}", w, seq.len(), p), case),
+                Ok(v) => {
+                    if !v.is_empty() {
+                        st.violate("minimiser.short", format!("w={} on a {}-byte sequence: {} runs emitted", w, seq.len(), v.len()), case);
+                    }
+                }
+            }
+        }
+    }
+    st
+}
+
 pub fn exhaustive(ctx: &Ctx) -> Stats {
     exhaustive_impl(ctx, false)
 }
